@@ -7,8 +7,10 @@ repo=${1:-/repo}
 export VERIF_REPO=$repo
 mkdir -p $here/.build; out=$here/.build/matrix.txt; : > $out
 cd $here && ./setup.sh > $here/.build/matrix-setup.log 2>&1
+only=${MATRIX_ONLY:-.}    # MATRIX_ONLY=<regex>: restrict to the ids matching it
 run_one() {
   id=$1; patch=$2
+  echo "$id" | grep -Eq "$only" || return
   git -C $repo checkout -q -- . ; git -C $repo apply $patch || { echo "$id APPLY-FAILED" >> $out; return; }
   res=$(cd $here && ./check ALL --tier quick 2>$here/.build/matrix-$id.err)
   line="$id:"
